@@ -315,6 +315,18 @@ impl<T> RcInner<T> {
 impl<T: RcObject> RcInner<T> {
     #[inline]
     pub(crate) unsafe fn decrement_strong(ptr: *mut Self, count: u32, guard: Option<&Guard>) {
+        // The epoch that gets stamped must be read inside the critical section: a thread that is
+        // not pinned can be delayed for arbitrarily many epochs between reading it and publishing
+        // it below, and the stale stamp would then replace a newer one and let the cascade reclaim
+        // the object under a reader that obtained it through a link removed in the meantime.
+        let guard_owned;
+        let guard = match guard {
+            Some(guard) => guard,
+            None => {
+                guard_owned = cs();
+                &guard_owned
+            }
+        };
         vpoint!(EpochRead, 0usize);
         let epoch = global_epoch();
         // Should mark the current epoch on the strong count with CAS.
@@ -349,11 +361,7 @@ impl<T: RcObject> RcInner<T> {
             guard.incr_manual_collection();
         };
 
-        if let Some(guard) = guard {
-            trigger_recl(guard)
-        } else {
-            trigger_recl(&cs())
-        }
+        trigger_recl(guard)
     }
 
     #[inline]
